@@ -64,6 +64,7 @@ class Ctx(object):
     self.diag_specs = {}
     self.handshake = None
     self.user_state_seen = []
+    self.on_update = None   # harness hook called after a body changed something observable
 
   def ev(self, kind, *args):
     return self.sim.event(self.tag + kind, *args)
@@ -102,10 +103,16 @@ def run_body(ctx, name, test, plugs):
     if inv == 1 and spec.get('first'):
       ctx.ev('fresh_state', name, len(test.state), sorted(str(k) for k in test.state))
     test.state['seen_' + name] = inv
+    if ctx.on_update is not None:
+      ctx.on_update('phase', name, None, None)
     for mname, val in beh.get('meas', []):
       test.measurements[mname] = val
+      if ctx.on_update is not None:
+        ctx.on_update('meas', name, mname, val)
     for i in range(beh.get('logs', 0)):
       test.logger.info('%slog %s inv%d #%d', ctx.tag, name, inv, i)
+      if ctx.on_update is not None:
+        ctx.on_update('log', name, '%slog %s inv%d #%d' % (ctx.tag, name, inv, i), None)
     for i, shape in enumerate(beh.get('xlogs', ())):
       logshapes.emit(test.logger, shape, inv * 10 + i)
     for i in range(beh.get('attach', 0)):
